@@ -182,9 +182,9 @@ theorem helperDeposit_snap {c : Cfg} {s s' : St} {e : Env} {a0 a1 dur : Nat}
   obtain ⟨b1, _, h⟩ := bind_eq_ok h
   obtain ⟨b2, _, h⟩ := bind_eq_ok h
   obtain ⟨_, _, h⟩ := bind_eq_ok h
-  obtain ⟨b3, _, h⟩ := bind_eq_ok h
   obtain ⟨lp, _, h⟩ := bind_eq_ok h
   obtain ⟨_, _, h⟩ := bind_eq_ok h
+  obtain ⟨b3, _, h⟩ := bind_eq_ok h
   obtain ⟨b4, _, h⟩ := bind_eq_ok h
   obtain ⟨_, _, h⟩ := bind_eq_ok h
   obtain ⟨b5, _, h⟩ := bind_eq_ok h
